@@ -209,20 +209,27 @@ Section Spec.
     - tr; [exact S3|apply IH].
   Qed.
 
+  Lemma same4_wait_reset c ids s : same4 s (wait_reset sc c ids s).
+  Proof.
+    split; [apply wait_reset_cl|]. split; [apply wait_reset_tbl|]. split; [apply wait_reset_aband|apply wait_reset_tr].
+  Qed.
+  Lemma q_wait_reset c ids s : quiet s (wait_reset sc c ids s).
+  Proof. apply quiet_same4, same4_wait_reset. Qed.
+
   Lemma q_wait_task c g ids s : quiet s (wait_task sc c g ids s).
   Proof.
     unfold wait_task. cbv zeta.
     pose proof (q_wait_start c g ids s) as S1.
     destruct (wait_start c g ids s) as [s1 w1]. cbn [fst] in S1.
-    destruct (w_pending w1); [exact S1|].
+    destruct (w_pending w1); [tr; [exact S1|apply q_wait_reset]|].
     destruct (match e_watch_err_at (sc_env sc) with Some n => Nat.eqb n (snd g) | None => false end);
       [tr; [exact S1|apply quiet_set_abort]|].
     pose proof (q_deliver c g ids (w_deliv (nth (snd g) (e_waits (sc_env sc)) (mkW [] WTimeout))) s1 w1) as S2.
     destruct (deliver sc c g ids _ s1 w1) as [s2 w2]. cbn [fst] in S2.
     tr; [exact S1|]. tr; [exact S2|].
-    destruct (w_pending w2); [apply quiet_refl|].
+    destruct (w_pending w2); [apply q_wait_reset|].
     destruct (w_end _).
-    - destruct (match c with AllCurrent => _ | AllNotFound => _ end); [apply q_wait_timeout|apply quiet_set_abort].
+    - destruct (match c with AllCurrent => _ | AllNotFound => _ end); [tr; [apply q_wait_timeout|apply q_wait_reset]|apply quiet_set_abort].
     - apply quiet_set_abort.
   Qed.
 
@@ -320,6 +327,10 @@ Section Spec.
         \/ a = ASucceeded /\ dry = false /\ applied (r_cl s) (r_cl s') i u ).
   Proof.
     intros EL EI. cbv zeta. unfold apply_one. rewrite EL.
+    destruct (negb (kind_known sc (r_known s) (p_id p))).
+    { (* no REST mapping: ApplyFailed, nothing sent *)
+      leaf. split; [reflexivity|]. exists AFailed, 0%N, 0%Z, [].
+      split; [reflexivity|]. split; [reflexivity|]. split; [constructor|]. left. split; [left; reflexivity|reflexivity]. }
     pose proof (same4_policy_apply_filter s (p_id p)) as P.
     destruct (policy_apply_filter sc s (p_id p)) as [s1 f1]. cbn [fst] in P. destruct P as [P1 [P2 [P3 P4]]].
     destruct (match f1 with FPass => _ | _ => _ end).
@@ -716,6 +727,7 @@ Section Spec.
   Lemma cache_apply_one pl g s p : r_cache (apply_one sc pl g s p) = r_cache s.
   Proof.
     unfold apply_one. destruct (p_local p) as [l|]; [|reflexivity].
+    destruct (negb (kind_known sc (r_known s) (p_id p))); [reflexivity|].
     pose proof (cache_policy_apply_filter s (p_id p)) as P.
     destruct (policy_apply_filter sc s (p_id p)) as [s1 f1]. cbn [fst] in P.
     destruct (match f1 with FPass => _ | _ => _ end).
